@@ -74,6 +74,13 @@ class StmtMixin(object):
         if isinstance(cur, tuple) and isinstance(rhs, tuple) and op == "+":
             self.assign(s.target, cur + rhs)
             return
+        if isinstance(cur, RefV) and cur.ty.base.kind == "ref" and op in ("+", "-"):
+            # x += y on an object without __iadd__ is x = x.__add__(y)
+            info = self.class_by_name(cur.ty.base.name)
+            owner, fn = info.find_method({"+": "__add__", "-": "__sub__"}[op]) if info else (None, None)
+            if fn is not None:
+                self.assign(s.target, self.call_value(FuncV(owner.module, owner, fn, cur, info), [rhs], {}, False))
+                return
         self.assign(s.target, self.arith(op, cur, rhs, False))
 
     def _as_load(self, t):
